@@ -197,15 +197,17 @@ theorem generate_labels_fresh (m : LMap) (a : GenArgs) (r : Rev) (h : generateRe
       split at h
       · rename_i hfree
         split at h
-        · simp only [Except.ok.injEq] at h
-          subst h
-          obtain ⟨hn, hf⟩ := labelsFree_spec _ _ hfree
-          refine ⟨rfl, rfl, not_mem_keysOf m _ hid, hn, ?_⟩
-          intro l hl
-          have := hf l hl
-          simp only [List.mem_cons, not_or] at this
-          exact ⟨not_mem_keysOf m l this.2, this.1⟩
         · simp at h
+        · split at h
+          · simp only [Except.ok.injEq] at h
+            subst h
+            obtain ⟨hn, hf⟩ := labelsFree_spec _ _ hfree
+            refine ⟨rfl, rfl, not_mem_keysOf m _ hid, hn, ?_⟩
+            intro l hl
+            have := hf l hl
+            simp only [List.mem_cons, not_or] at this
+            exact ⟨not_mem_keysOf m l this.2, this.1⟩
+          · simp at h
       · simp at h
 
 /-- `generate_revision` raises nothing but the error classes of its checks: when the other
@@ -219,8 +221,10 @@ theorem generate_error_kind (m : LMap) (a : GenArgs) (x : List Id × List String
   · simp only [Except.error.injEq] at hg; exact hg.symm
   · split at hg
     · split at hg
-      · simp at hg
       · simp only [Except.error.injEq] at hg; exact hg.symm
+      · split at hg
+        · simp at hg
+        · simp only [Except.error.injEq] at hg; exact hg.symm
     · simp only [Except.error.injEq] at hg; exact hg.symm
 
 /-- **A text the output encoding cannot represent is refused before the write**: if the arguments
@@ -236,7 +240,31 @@ theorem generate_refuses_unencodable (m : LMap) (a : GenArgs) (x : List Id × Li
     simp only [he] at hg
     split at hg
     · simp at hg
+    · split at hg
+      · split at hg <;> simp at hg
+      · simp at hg
+
+/-- **A file name that is already taken is refused before the write** (the repair of F17): if the
+    arguments resolve and the version path already holds a file with the name the template gives this
+    call, `generate_revision` raises `CommandError` (and, `stepCall_refused`, no file is replaced and the
+    map is untouched) - two accepted calls never share a file. -/
+theorem generate_refuses_taken_file (m : LMap) (a : GenArgs) (x : List Id × List String) (hx : resolveArgs m a = .ok x)
+    (ht : a.fileTaken = true) : generateRevision m a = .error .commandError := by
+  cases hg : generateRevision m a with
+  | error e => rw [generate_error_kind m a x hx e hg]
+  | ok r =>
+    unfold generateRevision at hg
+    rw [hx] at hg
+    simp only [ht] at hg
+    split at hg
+    · simp at hg
     · split at hg <;> simp at hg
+
+/-- the default template joins the id and the slug with `_`, so two different ids can give one name
+    (`a_b` + `c` and `a` + `b_c`): the situation `generate_refuses_taken_file` is about -/
+example : fileName "%(rev)s_%(slug)s".toList { rev := "a_b".toList, slug := "c".toList, epoch := 0, year := 0, month := 0, day := 0, hour := 0, minute := 0, second := 0 } =
+    fileName "%(rev)s_%(slug)s".toList { rev := "a".toList, slug := "b_c".toList, epoch := 0, year := 0, month := 0, day := 0, hour := 0, minute := 0, second := 0 } := by
+  decide
 
 /-- **A revision id that is already present is refused before the write**: if the other arguments
     resolve and the requested id is a key of the map (an existing revision id or branch label),
@@ -417,5 +445,13 @@ theorem filename_default_partial (f : Fields) (c : Char) (rest : List Char) (hre
   · rw [hrev]; simp [List.isPrefixOf, Ne.symm hus]
   · simp only [List.contains_eq_mem, List.mem_append, List.mem_cons, decide_eq_false_iff_not, not_or]
     exact ⟨hn1, by decide, hn2, by decide⟩
+
+/-- with equal slugs the default template is injective in the revision id -/
+theorem filename_default_injective (f g : Fields) (hs : f.slug = g.slug)
+    (h : fileName "%(rev)s_%(slug)s".toList f = fileName "%(rev)s_%(slug)s".toList g) : f.rev = g.rev := by
+  rw [filename_default, filename_default, hs] at h
+  simp only [Option.some.injEq] at h
+  exact List.append_cancel_right h
+
 
 end C17
